@@ -125,6 +125,102 @@ def load_cases(rng, revs, kind, junk=b''):
     return cases
 
 
+# ------------------------------------------------------------------ replay through IncrementalDocument
+def gen_base_doc(rng, big=False):
+    """(doc sx, ids, page id, dict ids)"""
+    objs = {}
+    res_kind = rng.choice(['none', 'direct', 'ref', 'refref', 'nondict', 'xobjref', 'xobjdangling'])
+    page = [('Type', N('Page')), ('Parent', REF(2, 0))]
+    nxt = 4
+    if res_kind == 'direct':
+        page.append(('Resources', D([('Font', D([]))])))
+    elif res_kind == 'ref':
+        page.append(('Resources', REF(4, 0))); objs[4] = D([('ProcSet', A([N('PDF')]))]); nxt = 5
+    elif res_kind == 'refref':
+        page.append(('Resources', REF(4, 0))); objs[4] = REF(5, 0); objs[5] = D([('XObject', D([('Old', REF(1, 0))]))]); nxt = 6
+    elif res_kind == 'nondict':
+        page.append(('Resources', I(7)))
+    elif res_kind == 'xobjref':
+        page.append(('Resources', D([('XObject', REF(4, 0))]))); objs[4] = D([('Im0', REF(1, 0))]); nxt = 5
+    elif res_kind == 'xobjdangling':
+        page.append(('Resources', D([('XObject', REF(99, 0))])))
+    objs[1] = D([('Type', N('Catalog')), ('Pages', REF(2, 0))])
+    objs[2] = D([('Type', N('Pages')), ('Kids', A([REF(3, 0)])), ('Count', I(1))])
+    objs[3] = D(page)
+    for _ in range(rng.randint(0, 4)):
+        objs[nxt] = histgen.o_sx(rnd_top(rng, list(objs)))
+        nxt += 1
+    if big:
+        body = bytes(rng.choice(b'0123456789 \n') for _ in range(70000))
+        objs[nxt] = histgen.o_sx(histgen.stream([], body)); nxt += 1
+    if rng.random() < 0.15:
+        objs[nxt] = REF(3, 0); nxt += 1          # an object that is only a reference (clone follows it)
+    max_id = nxt - 1 + rng.choice([0, 0, 0, 2])
+    ids = sorted(objs)
+    mark = rng.choice([b'\xe2\xe3\xcf\xd3', b'\xbb\xad\xc0\xde', b''])
+    doc = DOC(rng.choice(['1.4', '1.5', '1.7']), mark, [('Root', REF(1, 0))] + ([('Info', REF(2, 0))] if rng.random() < 0.3 else []),
+              [((i, 0), objs[i]) for i in ids], max_id)
+    return doc, ids, max_id
+
+
+def gen_steps(rng, ids, max_id, nsteps, with_page=True):
+    steps = []
+    ids = list(ids)
+    for _ in range(nsteps):
+        ops = []
+        for _ in range(rng.randint(1, 4)):
+            k = rng.random()
+            if k < 0.3 and ids:
+                i = rng.choice(ids)
+                ops.append(L('set', OID(i, 0), histgen.o_sx(rnd_top(rng, ids))))
+            elif k < 0.5:
+                ops.append(L('add', histgen.o_sx(rnd_top(rng, ids))))
+                max_id += 1
+                ids.append(max_id)
+            elif k < 0.6:
+                i = rng.choice(ids + [max_id + 7])
+                ops.append(L('clone', OID(i, 0)))
+            elif k < 0.75 and ids:
+                i = rng.choice(ids)
+                ops.append(L('setkey', OID(i, 0), xb(rng.choice([b'K', b'Type', b'V'])), histgen.o_sx(rnd_obj(rng, ids))))
+            elif k < 0.85 and with_page:
+                ops.append(L('res', OID(rng.choice([3, 3, 3, 1, max_id + 9]), 0)))
+            elif with_page:
+                ops.append(L('xobj', OID(rng.choice([3, 3, 3, 2]), 0), xb(rng.choice([b'Im1', b'Im2', b'Old'])), OID(rng.choice(ids), 0)))
+            else:
+                ops.append(L('add', I(1)))
+                max_id += 1
+                ids.append(max_id)
+        steps.append(L('step', *ops))
+    return L('steps', *steps)
+
+
+def gen_inc_case(rng, big=False):
+    doc, ids, max_id = gen_base_doc(rng, big)
+    style = rng.choice(['table', 'stream'])
+    junk = b''
+    if rng.random() < 0.3:
+        junk = bytes(rng.choice(b'garbage \n\x00\xff%PD') for _ in range(rng.randint(1, 40)))
+    if style == 'stream':
+        max_id += 1
+    steps = gen_steps(rng, ids, max_id, rng.randint(1, 3))
+    kind = 'inc-' + style + ('-junk' if junk else '') + ('-big' if big else '')
+    return (L('inc', doc, style, xb(junk), steps), {'kind': kind, 'nontrivial': True, 'class': []})
+
+
+def gen_incraw_case(rng):
+    revs = gen_history(rng, rng.choice([set(), set(), {'oscf', 'genbump'}, {'del'}]))
+    junk = b''
+    if rng.random() < 0.3:
+        junk = bytes(rng.choice(b'garbage \n\x00\xff%PD') for _ in range(rng.randint(1, 40)))
+    o = histgen.assemble(revs, (1, 0), junk=junk)[-1]
+    ids = sorted({p[0] for r in revs for p in r.puts if p[1] == 0})
+    top = 40
+    steps = gen_steps(rng, ids, top, rng.randint(1, 2), with_page=False)
+    return (L('incraw', str(o['hdr']), xb(o['bytes']), o['layout'], steps),
+            {'kind': 'incraw' + ('-junk' if junk else ''), 'nontrivial': True, 'class': []})
+
+
 def gen_cases(rng, tier):
     n = 60 if tier == 'quick' else 1500
     cases = []
@@ -151,6 +247,10 @@ def gen_cases(rng, tier):
             junk = bytes(rng.choice(b'garbage \n\x00\xff%PD') for _ in range(rng.randint(1, 40)))
             kind += '-junk'
         cases += load_cases(rng, revs, kind, junk)
+    for k in range(n):
+        cases.append(gen_inc_case(rng, big=(k % 30 == 7)))
+    for k in range(n // 2):
+        cases.append(gen_incraw_case(rng))
     return cases
 
 
